@@ -17,6 +17,7 @@ struct Ctx {
     keys: Keys,
     set: SetSpec,
     apps: Vec<Address>,
+    third: Address,
 }
 
 #[derive(Clone, Copy, Debug, PartialEq, Eq, Hash, Serialize, Deserialize)]
@@ -44,6 +45,8 @@ struct Model {
 enum Act {
     Approve { key: usize, c: Content },
     Execute { app: u8, key: usize, src: u8, payload: u8 },
+    /// a third party calls gateway.validate_message for itself (it is not the destination)
+    ThirdPartyValidate { key: usize, src: u8, payload: u8 },
     Advance(u32),
 }
 
@@ -76,13 +79,15 @@ impl Scenario for C16 {
         let gas = env.register(axelar_gas_service::AxelarGasService, (owner.clone(), operator.clone()));
         let example = env.register(example::Example, (gw.clone(), gas.clone()));
         let mini = env.register(MiniApp, (gw.clone(),));
-        (Ctx { w, gw, keys, set, apps: vec![example, mini] }, Model { advances: 0, status: vec![Status::NotApproved; 3], mini_count: 0 })
+        (Ctx { w, gw, keys, set, apps: vec![example, mini], third: operator.clone() }, Model { advances: 0, status: vec![Status::NotApproved; 3], mini_count: 0 })
     }
 
     fn actions(&self, _ctx: &Ctx, m: &Model) -> Vec<Act> {
         let mut v = vec![];
         if m.advances < 1 {
             v.push(Act::Advance(20));
+            // ~64 days: longer than any TTL a contract extends to, shorter than the minimum persistent TTL
+            v.push(Act::Advance(1_100_000));
         }
         for key in 0..APPROVABLE {
             for app in 0..2u8 {
@@ -92,6 +97,9 @@ impl Scenario for C16 {
                     }
                 }
             }
+        }
+        for key in 0..2usize {
+            v.push(Act::ThirdPartyValidate { key, src: 0, payload: 0 });
         }
         for app in 0..2u8 {
             for key in 0..3usize {
@@ -130,6 +138,23 @@ impl Scenario for C16 {
                 if call.ok && m.status[*key] == Status::NotApproved {
                     m.status[*key] = Status::Approved(*c);
                 }
+            }
+            Act::ThirdPartyValidate { key, src, payload } => {
+                out.kind = "third-party-validate";
+                let (chain, id) = KEYS[*key];
+                let h0 = w.state_hash();
+                let t = [ctx.third.clone()];
+                let call = w.call(
+                    &ctx.gw,
+                    "validate_message",
+                    &[ctx.third.to_val(), to_val(env, &sstr(chain)), to_val(env, &sstr(id)), to_val(env, &sstr(src_str(*src))), to_val(env, &sbytes(&keccak(&payload_of(*payload))))],
+                    Auth::By(&t),
+                );
+                out.accepted = call.ok && call.ret_bool() == Some(true);
+                out.expect(!out.accepted, "third-party.consumed", || format!("{:?}: a non-destination consumed the message", a));
+                out.expect(h0 == w.state_hash(), "third-party.changed-state", || {
+                    format!("{:?}: a refused validation changed the gateway's record (status {:?})", a, m.status[*key])
+                });
             }
             Act::Execute { app, key, src, payload } => {
                 out.kind = if *app == 0 { "execute-example" } else { "execute-miniapp" };
@@ -189,7 +214,7 @@ fn main() {
         let mut o = Opts::new(tier, if tier == "thorough" { 12 } else { 8 });
         o.min_depth = 3;
         o.xcheck = tier == "thorough";
-        o.rule = "all sequences over gateway approvals (2 message ids x destination app {example, miniapp} x 2 source addresses x 2 payloads) and deliveries app.execute(chain, id, source address, payload) for both apps x 3 ids (one never approved, on another chain) x 2 source addresses x 2 payloads; so never-approved, approved-for-the-other-app, other payload / source address / id / chain, delivered twice and conforming deliveries all occur; explored to fixpoint of the finite status graph".into();
+        o.rule = "all sequences over gateway approvals (2 message ids x destination app {example, miniapp} x 2 source addresses x 2 payloads) and deliveries app.execute(chain, id, source address, payload) for both apps x 3 ids (one never approved, on another chain) x 2 source addresses x 2 payloads; so never-approved, approved-for-the-other-app, other payload / source address / id / chain, delivered twice and conforming deliveries all occur; a third party asking the gateway directly (refused, must change nothing); explored to fixpoint of the finite status graph".into();
         (C16, o)
     });
 }
